@@ -210,14 +210,19 @@ CorridorStage1W ==
 \* a node is left without the round-0 proposal, is moved to round 1 (faulty proposer) by +2/3-any precommits and only then
 \* learns the round-0 commit; the faulty proposer of round 1 then sends its proposal (ProposalResetsParts)
 CorridorStuck ==
-  LET X == CHOOSE n \in Corr : n # Proposer(0) IN
+  LET X  == CHOOSE n \in Corr : n # Proposer(0)
+      B0 == FreshValue(Proposer(0))
+      Others == Corr \ {X}
+  IN
   /\ \A n \in Corr : rs[n].round <= 1
-  /\ (act.name = "Deliver" /\ act.m \in ByzVotes) => (act.m.r = 0 /\ act.m.v \in CorrValues)
+  /\ (act.name = "Deliver" /\ act.m \in ByzVotes) => (act.m.r = 0 /\ act.m.v = B0)
   /\ (act.name = "Deliver" /\ act.m \in ByzProposals) => (act.m.r = 1 /\ act.n = X)
   /\ (act.name = "Deliver" /\ act.m \in ByzClaims) => FALSE
-  /\ (act.name = "Deliver" /\ act.m.t = "proposal" /\ act.m.r = 0) => act.n # X
-  /\ act.name = "Timeout" => (act.k \in {"NewHeight", "PrecommitWait"} \/ (act.k = "Propose" /\ act.n = X))
-  /\ (act.name = "Timeout" /\ act.k = "PrecommitWait") => act.n = X
+  /\ (act.name = "Deliver" /\ act.m.t \in {"proposal", "block"} /\ act.m \notin ByzProposals) => act.n # X
+  /\ act.name = "Timeout" => (act.k = "NewHeight" \/ (act.n = X /\ act.k \in {"Propose", "PrevoteWait", "PrecommitWait"}))
+  \* two phases: first the other correct nodes run round 0 up to their precommits, only then X starts
+  /\ (act.n = X) => \A n \in Others : rs[n].step >= StPrecommit /\ inq[n] = << >>
+  /\ (act.n \in Others) => (rs[X].step = StNewHeight /\ rs[X].round = 0)
 CorridorStage2 ==
   /\ \A n \in Corr : rs[n].round <= 1
   /\ (act.name = "Deliver" /\ act.m \in ByzVotes) => (act.m.v \in ByzValues /\ act.m.r = 1)
